@@ -157,6 +157,8 @@ class ExplorerScriptSsbCompiler:
                 # Parse as SsbScript instead
                 subcompiler = SsbScriptSsbCompiler()
                 subcompiler.compile(explorerscript_src)
+                if macros_only and subcompiler.routine_ops is not None and len(subcompiler.routine_ops) > 0:
+                    raise SsbCompilerError(f(_("{file_name}: Macro scripts must not contain any routines.")))
                 self.routine_infos = subcompiler.routine_infos
                 self.routine_ops = subcompiler.routine_ops
                 self.named_coroutines = subcompiler.named_coroutines
